@@ -24,6 +24,21 @@ import pytenet as ptn
 
 PID = 'C13'
 
+# observer (behaviour-preserving): snapshot of the site tensors at the moment of the first truncated SVD of a compress() call
+FIRST_SVD = {}
+CURRENT = {}
+import pytenet.mps as _mps_mod
+_orig_split = _mps_mod.split_matrix_svd
+
+
+def _observed_split(A, q0, q1, tol):
+    if 'A' not in FIRST_SVD and CURRENT.get('psi') is not None:
+        FIRST_SVD['A'] = [a.copy() for a in CURRENT['psi'].A]
+    return _orig_split(A, q0, q1, tol)
+
+
+_mps_mod.split_matrix_svd = _observed_split
+
 
 def tasks(tier, seed):
     ts = []
@@ -44,8 +59,7 @@ def tasks(tier, seed):
             ts.append(dict(name=f'compress_{mode}_d3_D131_zero_tolsym_rule', mode=mode, d=3, D=(1, 3, 1), qmode='zero', tolmode='sym', cut=9, exact=False, rule_only=True))
         add(mode, 2, (1, 1, 1), 'sym', 'sym', cut=10)
         ts.append(dict(name=f'compress_{mode}_d2_D1111_zero_tolsym_structural', mode=mode, d=2, D=(1, 1, 1, 1), qmode='zero', tolmode='sym', cut=8, exact=False))
-        if not q:
-            add(mode, 2, (1, 1, 1, 1), 'zero', 'zero')
+        # (exactness at L = 3 is not provable within the product budget: rounds 4-5 exceed 6e4 products -> 'unknown'; structural VCs only)
         if not q:
             add(mode, 2, (1, 2, 1), 'sym', 'sym', cut=12); add(mode, 2, (1, 2, 2, 1), 'zero', 'zero', cut=10)
             add(mode, 2, (1, 2, 1, 1), 'zero', 'sym', cut=10); add(mode, 2, (1, 3, 1), 'zero', 'sym', cut=10)
@@ -53,7 +67,7 @@ def tasks(tier, seed):
 
 
 def required_marks(tier):
-    return ['truncated_at_first_bond', 'nothing_truncated', 'exactness_checked', 'canonical_checked', 'phase_negative', 'phase_positive']
+    return ['truncated_at_first_bond', 'nothing_truncated', 'exactness_checked', 'canonical_checked', 'phase_negative', 'phase_positive', 'schmidt_complement_checked']
 
 
 def path(eng, acc, task):
@@ -77,6 +91,7 @@ def path(eng, acc, task):
         acc.inc('zero_state_paths')
         return          # property is about non-zero states
     fails = []
+    FIRST_SVD.clear(); CURRENT['psi'] = psi
     try:
         nrm, scale = psi.compress(tol, mode=mode)
     except SymDivisionByZero:
@@ -130,6 +145,20 @@ def path(eng, acc, task):
                 eng.mark('nothing_truncated')
             if not c12.zero_path(eng, given):
                 c12.truncation_vcs(eng, acc, given, [given[i] for i in idx], tol, fails)
+                # the values handed to the first truncation are the Schmidt values iff the part of the chain that has not been swept
+                # yet is in the opposite canonical form at that moment (snapshot taken by the observer of split_matrix_svd)
+                snapA = FIRST_SVD.get('A')
+                if snapA is None:
+                    fails.append('no truncated SVD was observed')
+                elif L >= 2:
+                    from harness.c01 import iso_goals
+                    comp = range(1, L) if mode == 'left' else range(0, L - 1)
+                    cg = []
+                    for i_ in comp:
+                        cg += iso_goals(snapA[i_], 'mps', 'right' if mode == 'left' else 'left')
+                    if prover.prove_escalating(eng, cg, rounds=(1, 2), acc=acc, label='vc_complement_canonical') != 'proved':
+                        fails.append('at the first truncation the rest of the chain is not in the opposite canonical form: the truncated values are not Schmidt values')
+                    eng.mark('schmidt_complement_checked')
             # exactness whenever nothing was discarded anywhere (in particular for tol = 0 after promoting zero weights)
             if task['tolmode'] == 'zero':
                 eng.promote_zeros()
